@@ -5,6 +5,31 @@ ROOT = os.path.dirname(os.path.dirname(os.path.abspath(__file__)))
 
 # id -> (technique, level text, level note, design ref)
 CHECKS = {
+ "C01": ("exhaustive enumeration (every byte / Unicode scalar value per context, all short strings over a focused alphabet, all IPv6/dec-octet shapes) + proptest (grammar derivations, mutants, random bytes), differential against an independent RFC 3986/3987 recogniser; libFuzzer in thorough",
+         "Both directions of 'accepted iff derivable' on ~60 M enumerated and ~400 k random (type, input) pairs per quick run, through every construction route, with text/payload identity. Closes all single-token and short-string sub-domains completely; longer inputs are sampled.",
+         "Trusts the hand-transcribed RFC grammar (self-checked: RFC example tables, interpreter vs automaton, direct IPv4/IPv6 recogniser). The driver's stamp makes the verdict one about the current grammar/automaton files.", "DESIGN.md 4/C01"),
+ "C03": ("exhaustive product of user-info x host x port pools + proptest random authorities, vs RFC 3986 3.2 splitter oracle",
+         "Every accessor (user_info, host, port, parts) of stand-alone and embedded authorities, borrowed and owned, compared with an independent section-3.2 splitter on the complete pool product (12.5 k cases) and 200 k random authorities; parts re-validated; reassembly checked.",
+         "Trusts the harness splitter; authorities are gated by the library's checked constructor.", "DESIGN.md 4/C03"),
+ "C04": ("stateful property-based testing (proptest op vectors with nested handles) against a validity oracle (checked constructor + independent recogniser + UTF-8 + no panic) after every op; libFuzzer+ASan in thorough",
+         "200 k (quick) generated histories of setters / authority_mut / path_mut / resolve over all ways of obtaining a buffer, validity judged after every call and all accessors exercised. Finds any reachable ill-formed buffer within the generated history shapes; no proof.",
+         "Trusts the R-ABNF recogniser and the checked constructors (C01).", "DESIGN.md 4/C04"),
+ "C05": ("property-based testing (proptest): (buffer, setter, value) triples against an exact expected-text oracle built from Appendix-B components and the three documented disambiguations",
+         "300 k triples per quick run; the observed text must equal the section 5.3 recomposition with exactly the permitted path adjustment, so both a missing and an unnecessary disambiguation fail, as does any change to another component.",
+         "Trusts the Appendix-B splitter and recomposition; for the empty path under an authority both '' and '/' are accepted.", "DESIGN.md 4/C05"),
+ "C06": ("property-based testing (proptest): (base, reference) pairs from a dot-rich structural generator, differential against an own RFC 3986 5.2 resolver; three entry points and two families compared; libFuzzer in thorough",
+         "300 k pairs per quick run over all 5.2.2 branches x base shapes (class floors per cell), byte-identical comparison with the RFC target when it is unambiguous, validity + component + path-rendering check when it is not.",
+         "Trusts the harness resolver (R-NORM self-checked against a literal 5.2.4). For relative merged paths whose normal form starts with an empty segment both the literal and the Errata-4547 reading are accepted (the statement does not settle it).", "DESIGN.md 4/C06"),
+ "C09": ("exhaustive enumeration of all paths <= 6 segments over {a,b:c,'',.,..} (stand-alone + 3 embeddings) + proptest random long paths, vs dot-segment model",
+         "normalized_segments / normalized / PathBuf::normalize / PathMut::normalize judged against the N/E model (itself checked against a literal RFC 5.2.4), with idempotence, absoluteness and frame checks.",
+         "Trusts the dot-segment model; a lone empty segment may be written the RFC way ('/' or '').", "DESIGN.md 4/C09"),
+ "C10": ("model-based stateful property testing (proptest op vectors through one handle) against a list model with shield-reading sets",
+         "300 k op vectors per quick run on stand-alone and embedded paths; after every op the handle view must be a valid path that is a reading of the model list; frame and handle-reuse differentials.",
+         "A leading '.' before an empty/colon segment is read both as shield and as segment (the text cannot tell); pop on an empty path after an authority may stay or give '/..'.", "DESIGN.md 4/C10"),
+ "C11": ("model-based stateful property testing (proptest op vectors through one AuthorityMut handle) against a (userinfo, host, port) model",
+         "200 k vectors per quick run; exact handle view after every call, exact final text, fresh-handle differential.",
+         "Trusts the section-3.2 splitter and recomposition.", "DESIGN.md 4/C11"),
+
  "C02": ("property-based testing (proptest): structural reference generator + accepted mutants vs RFC 3986 Appendix-B splitter oracle; libFuzzer in thorough",
          "Generated-input search: ~300k (quick) / millions (thorough) generated references of both families, every accessor of the four borrowed and four owned types compared with an independent Appendix-B splitter, components re-validated, section 5.3 recomposition checked. Finds wrong index arithmetic on any generated shape; gives no proof of absence.",
          "Trusts the harness's Appendix-B splitter and R-ABNF recogniser (self-checked at start-up) and the library's checked constructor as validity gate (its language is C01's subject).", "DESIGN.md 4/C02"),
